@@ -135,6 +135,7 @@ type Interp struct {
 	modelTypes map[string]types.Type
 	initDepth  int
 	realBuffer bool // bytes.Buffer writers run from source (vRealBuffer)
+	frozenClock *Term
 	initTop    *ssa.Function
 	sums       []sumRec
 	allocHook  func(n *Term)
@@ -214,6 +215,7 @@ func (in *Interp) resetPath() {
 	in.curFn = nil
 	in.initDepth = 0
 	in.realBuffer = false
+	in.frozenClock = nil
 	in.allocHook = nil
 	in.sums = nil
 	in.digitCache = map[*Term]StrV{}
